@@ -325,6 +325,27 @@ def jump_descs(tier, r):
                     head = [("push", 4), "CALLDATALOAD", ("pushn", 2, t), "JUMPI"]
                 code = asm.assemble(head + ["STOP"]) + body
                 descs.append({"profile": "jump-" + kind, "code": code.hex(), "callees": {}, "options": {}, "static": False, "nargs": 2})
+    # a JUMPDEST at code offset 0 is a destination like any other (a loop whose head is the first byte): the counter in
+    # memory word 0 is bumped until it reaches n, jumping back to offset 0 by JUMP / literal JUMPI / symbolic JUMPI
+    for n in (2, 3):
+        bump = ["JUMPDEST", "PUSH0", "MLOAD", ("push", 1), "ADD", "DUP1", "PUSH0", "MSTORE", ("push", n), "GT"]   # n > counter
+        out = [("push", 32), "PUSH0", "RETURN"]
+        progs = {
+            "jumpi_lit": bump + ["PUSH0", "JUMPI"] + out,
+            "jump": bump + ["ISZERO", ("ref", "X"), "JUMPI", "PUSH0", "JUMP", ("label", "X")] + out,
+            "jumpi_sym": bump + [("push", 4), "CALLDATALOAD", "AND", "PUSH0", "JUMPI"] + out,
+        }
+        for kind, items in progs.items():
+            descs.append({"profile": "jump-dest0-" + kind, "code": asm.assemble(items).hex(), "callees": {}, "options": {"loop": 4}, "static": False, "nargs": 2})
+    # CODECOPY of ranges at, across and far past the end of the code over memory that already holds non-zero bytes:
+    # the bytes past the end read as zeros, whatever the offset
+    for size in (1, 32, 33):
+        tail = [("push", 96), "PUSH0", "RETURN"]
+        fill = [("pushn", 32, int.from_bytes(b"\x11" * 32, "big")), "DUP1", "PUSH0", "MSTORE", "DUP1", ("push", 32), "MSTORE", ("push", 64), "MSTORE"]
+        base = len(asm.assemble(fill + [("push", size), ("pushn", 32, 0), ("push", 7), "CODECOPY"] + tail))
+        for off in (0, base - 1, base, base + 1, base + 31, 200, (1 << 16), (1 << 255), (1 << 256) - 1):
+            items = fill + [("push", size), ("pushn", 32, off), ("push", 7), "CODECOPY"] + tail
+            descs.append({"profile": "codecopy-far", "code": asm.assemble(items).hex(), "callees": {}, "options": {}, "static": False, "nargs": 2})
     return descs
 
 
